@@ -179,8 +179,8 @@ func c02Scenario(tier string) *core.Scenario {
 	widths := []int{8, 16, 32}
 	variants := 1
 	if tier != "thorough" {
-		carriers = []string{"load", "store_imm", "push", "moffs_load"}
-		widths = []int{16}
+		carriers = []string{"load", "store_imm", "push", "moffs_load", "alu_load", "not", "shl1", "pop"} // one per codegen handler family
+		widths = []int{16, 32}
 	} else {
 		variants = 4
 	}
